@@ -3,3 +3,18 @@ add("C01", "exploration",
     "Every call of thousands of generated API programs (keys engineered to collide in the full hash or in its low bits for a pinned seed; thresholds from a grid; Mem/CrashFS/OS/OSMMap) is compared with a reference map, Count after every call, and the on-disk index is walked every 64 calls (slot placement, duplicates, slot->record agreement via an independent record decoder, free list). Held on the executions listed in the evidence; not a proof over all histories.",
     "Trusts the reference map, the independent decoder/hash re-implementation (cross-checked against pogreb's on every slot) and that pinning the hash seed through the verif hook does not change behaviour otherwise. Single goroutine.",
     "DESIGN.md 4/C01")
+add("C02", "exploration",
+    "runtime monitor: reference-map differential across clean Close/Open cycles, recovery-event hook, index geometry comparison, OS<->OSMMap alternation",
+    "Generated multi-session programs (C01's generator plus restarts at PRNG positions, after compactions, on empty databases); after every clean restart the recovery hook must stay silent, the lock file must be gone, the full read-back and the structural index walk must equal the reference and the index geometry must equal the one before Close; idle Open+Close cycles must leave the segment files byte-identical; real directories alternate between fs.OS and fs.OSMMap.",
+    "Trusts the reference map and the verif 'recover' event hook. Held on the sessions listed in the evidence.",
+    "DESIGN.md 4/C02")
+add("C03", "fault_enumeration",
+    "fault enumeration at runtime: every FS-call boundary and every 512-aligned tear of recorded executions is materialised as a crash image and recovered by the real Open; oracle = reference state before/after the call in flight",
+    "Each generated history runs on a call-logging in-memory file system; every crash point of the stated process-crash model inside the history (all boundaries between FS calls, all sector-aligned tears of every data write) is turned into an image that the real recovery code opens; the complete read-back must equal the reference state before or after the API call in flight. Exhaustive per history, sampled over histories.",
+    "Fault model exactly as stated in the property (completed calls applied, in-flight data write torn at 512-aligned offsets, atomic directory operations). Trusts CrashFS (cross-validated against fs.OS in C17) and the reference map.",
+    "DESIGN.md 4/C03")
+add("C06", "fault_enumeration",
+    "fault enumeration at runtime: power-loss images (per-inode surviving prefixes of unsynced operations) at every FS-call boundary of recorded executions, recovered by the real Open; per-key oracle 'synced value or a later write'",
+    "Histories in both sync modes with rollover, compaction (with writers slipped into its lock-free windows through the verif yield hook), clean restarts and a second epoch after a recovery; at every FS-call boundary a family of admissible power-loss images (minimal, maximal, single-inode loses/keeps, PRNG prefixes with tears) is recovered by the real code and every key must hold its last-synced value or a later write.",
+    "Power-loss model exactly as stated in the property. fs.File.Sync is taken to be fsync. Image family per boundary is a fixed adversarial subset plus PRNG samples, not all prefix combinations.",
+    "DESIGN.md 4/C06")
